@@ -1,8 +1,8 @@
 package an
 
 import (
-	"go/token"
 	"fmt"
+	"go/token"
 	"go/types"
 	"strings"
 
@@ -419,7 +419,6 @@ func instrIndexInFn(in ssa.Instruction) int {
 	}
 	return k
 }
-
 
 // ownClosedObserved: a socket or context that can be closed on its own (it has a `closed`
 // flag that its Close sets) refuses Send and Recv once closed: each of its SendMsg/RecvMsg
